@@ -336,3 +336,32 @@ def reply_before_send_returns(c):
     run_updater(c, upd)
     c.ensure('request-released-by-its-early-reply', 'not upd.wait_lock.locked() and upd.request_queue.qsize() == 0')
     c.ensure('cache-holds-device-value', "param.values['g']['a'] == str(dev)")
+
+
+@contract('C04', 'notification-during-misc-request', [PRM + ':_ParamUpdater._new_packet_cb', PRM + ':_ParamUpdater.run', PRM + ':Param.persistent_store'],
+          clause='each request is answered before the next is sent: an unsolicited value-changed notification for the very parameter whose '
+                 'persistent request is pending is delivered as a notification, but does not count as the answer of that request',
+          bounded='one pending persistent_store followed by one queued read of another parameter')
+def notification_during_misc(c):
+    c.int('id0', 0, 65535), c.int('id1', 0, 65535)
+    c.require('id0 != id1')
+    cf, param, upd = setup(c, [(c.get('id0'), 0x09 | 0x10, 'g', 'a'), (c.get('id1'), 0x09, 'g', 'b')])
+    toc = c.getfield(param, 'toc')
+    c.invoke((c.invoke((toc, 'get_element'), 'g', 'a'), 'mark_persistent'))
+    note = c.ext('note')
+    c.call((param, 'persistent_store'), 'g.a', note)
+    c.call((param, 'request_param_update'), 'g.b')
+    c.require('raised is None')
+    c.reset_trace()
+    run_updater(c, upd)
+    c.ensure('store-request-on-the-wire', "len(sent('link.send_packet')) == 1 and bytes(sent('link.send_packet')[0][1][0].data) == pack('<BH', 3, id0)")
+    c.int('newval', 0, 65535)
+    deliver(c, cf, 3, "pack('<BHH', 1, id0, newval)")        # MISC_VALUE_UPDATED for the same parameter
+    c.ensure('notification-is-cached', "param.values['g']['a'] == str(newval)")
+    c.ensure('pending-request-not-released-by-the-notification', "upd.wait_lock.locked() and len(sent('note')) == 0")
+    run_updater(c, upd)
+    c.ensure('next-request-waits', "len(sent('link.send_packet')) == 1")
+    deliver(c, cf, 3, "pack('<BHB', 3, id0, 0)")
+    c.ensure('own-reply-releases', "not upd.wait_lock.locked() and len(sent('note')) == 1 and sent('note')[0][1] == ('g.a', True)")
+    run_updater(c, upd)
+    c.ensure('next-request-goes-out-afterwards', "len(sent('link.send_packet')) == 2 and bytes(sent('link.send_packet')[1][1][0].data) == pack('<H', id1)")
